@@ -163,6 +163,8 @@ func checkC07(p *Prog, r *Report) {
 	rulePanosXPathScope(p, r)
 	r.rule("R07.5", "Protection sites of the Cisco planner keep exactly their audited controlling conditions (tables/guards.tsv): marking of objects behind unknown interfaces / unmanaged VRFs as needed; deletion candidates = not needed and (marked toDelete or generated name); the walk that protects everything an unmanaged object still references; deletion only when nothing to be deleted later references the object; no change for aaa-server, ldap attribute-map, interface; routes deleted only where the target specifies routes. Guard sets are computed from go/ssa (all If edges dominating the site, normalised) and compared as multisets.")
 	ruleGuardTable(p, r, "R07.5", "C07")
+	r.rule("R-M", "Mark discipline (Cisco): needed / ready / toDelete decide which device objects are kept and which become deletion candidates; every store into such a mark in package cisco lies at a function+site whose controlling conditions are audited rows of tables/guards.tsv (compared by R07.5).")
+	ruleMarkDiscipline(p, r, "R-M", "C07", "cisco", []string{"cmd.needed", "cmd.ready", "cmd.toDelete"}, 18)
 	r.Trusted = []string{"go/ssa, call graph", "the audited guard sets in tables/guards.tsv are the intended ones (each row carries its reason)"}
 	r.NotDec = "whole-device frame condition for arbitrary unmanaged content; value-dependent marking (which objects an unknown interface reaches); lines the parser does not model"
 }
